@@ -634,13 +634,15 @@ class Gen:
         if cc == "ES":
             k = rng.randrange(16)
             if k == 12:     # same percentage with and without an extension: groups must stay apart, in either order
-                return [{"cat": "VAT", "percent": rng.choice(["21%", "10%", "0%"]), "ext": {"es-zz-kind": rng.choice(["A", "B"])}}]
+                ext = rng.choice([{"es-zz-kind": "A"}, {"es-zz-kind": "B"}, {"es-zz-kind": "A", "es-zz-more": "X"}, {"es-zz-more": "X"},
+                                  {"es-zz-kind": "A", "es-zz-more": "X", "es-zz-z": "1"}])   # incl. strict sub-maps of one another
+                return [{"cat": "VAT", "percent": rng.choice(["21%", "10%", "0%"]), "ext": ext}]
             if k == 13:     # exempt (no percentage at all), locally or under a country override
                 t = {"cat": "VAT"}
                 if rng.random() < 0.5:
                     t["country"] = rng.choice(["PT", "FR"])
-                if rng.random() < 0.3:
-                    t["ext"] = {"es-zz-kind": "A"}
+                if rng.random() < 0.45:
+                    t["ext"] = rng.choice([{"es-zz-kind": "A"}, {"es-zz-kind": "A", "es-zz-more": "X"}, {"es-zz-more": "X"}])
                 return [t]
             if k == 14:
                 return [{"cat": "VAT", "percent": rng.choice(["21%", "10%"]), "country": rng.choice(["PT", "FR"])}]
